@@ -1242,5 +1242,89 @@ Section Origins.
         destruct (String.eqb_spec k next) as [->|Nk']; [|now rewrite orb_false_r].
         rewrite Hnp. cbn [orb]. f_equal. pose proof (Hone _ He eq_refl) as Hw. cbn [snd] in Hw. subst w.
         symmetry. apply sset_remove_notin. now apply mem_false.
-    - rewrite E. f_equal. exact P.
+    - rewrite P in E. exact E.
+  Qed.
+
+  (* ---------- the work-queue invariant ---------- *)
+  Definition parent_of (t : tdef) (x : string) : Prop := In x (t_impl t) /\ defined ts x.
+
+  Record Inv (done : list string) (origins : list (okey * origin)) (queue : list string)
+             (req : list (string * list string)) : Prop := mkInv {
+    i_nodup : NoDup (done ++ queue);
+    i_names : forall n, In n (done ++ queue) -> defined ts n;
+    i_keys : map fst req = map t_name (sort_types ts);
+    i_req : forall n rem, In (n, rem) req ->
+              exists t, In t ts /\ t_name t = n /\ forall x, In x rem <-> (parent_of t x /\ ~ In x done);
+    i_ready : forall n rem, In (n, rem) req -> (In n (done ++ queue) <-> rem = []);
+    i_order : forall pre tn post, done = pre ++ tn :: post ->
+              forall t x, In t ts -> t_name t = tn -> parent_of t x -> In x pre;
+    i_org_keys : forall tn fn, omap_get (tn, fn) origins <> None <->
+                 (In tn done /\ exists t, In t ts /\ t_name t = tn /\ has_field t fn);
+    i_org : forall tn fn o, In ((tn, fn), o) origins -> orepr tn fn o
+  }.
+
+  Lemma sorted_names_nodup : NoDup (map t_name (sort_types ts)).
+  Proof.
+    apply (Permutation_NoDup (l := map t_name ts)); [|apply U].
+    apply Permutation_map. symmetry. apply sort_types_perm.
+  Qed.
+  Lemma sorted_names_In n : In n (map t_name (sort_types ts)) <-> defined ts n.
+  Proof.
+    rewrite defined_iff. split; apply Permutation_in; apply Permutation_map;
+      [apply sort_types_perm | symmetry; apply sort_types_perm].
+  Qed.
+
+  Lemma resolvers_In tn n : In n (resolvers_of ts tn) <-> exists t, In t ts /\ t_name t = n /\ In tn (t_impl t).
+  Proof.
+    unfold resolvers_of. rewrite in_map_iff. split.
+    - intros [t [E H]]. apply filter_In in H. destruct H as [H1 H2]. apply sort_types_In in H1.
+      apply mem_In in H2. eauto.
+    - intros [t [H1 [E H2]]]. exists t. split; [exact E|]. apply filter_In. split.
+      + now apply sort_types_In.
+      + now apply mem_In.
+  Qed.
+  Lemma NoDup_map_filter {A B} (f : A -> B) p l : NoDup (map f l) -> NoDup (map f (filter p l)).
+  Proof.
+    induction l as [|x l IH]; intros N; cbn; [constructor|]. cbn in N. inversion N as [|? ? N1 N2]; subst.
+    destruct (p x); cbn; [constructor|]; auto.
+    intros H. apply N1. apply in_map_iff in H. destruct H as [y [E Hy]]. apply filter_In in Hy.
+    rewrite <- E. apply in_map. tauto.
+  Qed.
+  Lemma resolvers_nodup tn : NoDup (resolvers_of ts tn).
+  Proof. unfold resolvers_of. apply NoDup_map_filter. apply sorted_names_nodup. Qed.
+
+  Lemma NoDup_app_intro {A} (a b : list A) :
+    NoDup a -> NoDup b -> (forall x, In x a -> ~ In x b) -> NoDup (a ++ b).
+  Proof.
+    induction a as [|x a IH]; intros Na Nb H; cbn; [exact Nb|].
+    inversion Na as [|? ? N1 N2]; subst. constructor.
+    - intros Hx. apply in_app_or in Hx. destruct Hx as [Hx|Hx]; [contradiction|]. apply (H x); [now left | exact Hx].
+    - apply IH; auto. intros y Hy. apply H. now right.
+  Qed.
+
+  Lemma has_field_mem t fn : has_field t fn <-> mem fn (map f_name (t_fields t)) = true.
+  Proof.
+    rewrite mem_In, in_map_iff. unfold has_field. split; intros [f [H1 H2]]; exists f; auto.
+  Qed.
+
+  (* the origin computed for a field of the type being processed is its set of declarative origins *)
+  Lemma own_orepr defn inh fn :
+    In defn ts -> has_field defn fn -> represents (contribs defn) inh ->
+    orepr (t_name defn) fn (own_o (t_name defn) inh fn).
+  Proof.
+    intros Hd Hf R. specialize (R fn). unfold own_o. destruct (smap_get fn inh) as [o|].
+    - destruct R as [[i0 H0] [R2 R3]]. split; [|exact R3]. intros a. rewrite R2. split.
+      + intros [i [Hc O]]. apply contribs_In in Hc. destruct Hc as [Hi [it [Hit Hfi]]].
+        eapply origin_inherited; eauto.
+      + intros O. inversion O as [t fn' Ht Hft Hno E1 E2 E3|t fn' i it a' Ht Hft Hi Hit Hfi Oi E1 E2 E3]; subst.
+        * assert (t = defn) by (now apply (name_inj ts U)). subst t.
+          apply contribs_In in H0. destruct H0 as [Hi0 [it0 [Hit0 Hf0]]]. exfalso. eapply Hno; eauto.
+        * assert (t = defn) by (now apply (name_inj ts U)). subst t.
+          exists i. split; [|exact Oi]. apply contribs_In. eauto.
+    - split; [|exact I]. intros a. cbn [oset In]. split.
+      + intros [<-|[]]. apply origin_self; auto. intros i it Hi Hit Hfi. apply (R i). apply contribs_In. eauto.
+      + intros O. inversion O as [t fn' Ht Hft Hno E1 E2 E3|t fn' i it a' Ht Hft Hi Hit Hfi Oi E1 E2 E3]; subst.
+        * now left.
+        * assert (t = defn) by (now apply (name_inj ts U)). subst t.
+          exfalso. apply (R i). apply contribs_In. eauto.
   Qed.
